@@ -151,6 +151,12 @@ fn execute(ctx: &mut Ctx, case: &Case) {
     let differing = one_level_silent(ctx, prep, &case.invocations);
     if !differing.is_empty() {
         ctx.sample("inconclusive:substitution-step-differs", json!({"program": case.text, "differs": format!("{differing:?}")}));
+        if let Ok(path) = std::env::var("VERIF_DUMP_INCONCLUSIVE") {
+            use std::io::Write;
+            if let Ok(mut f) = std::fs::OpenOptions::new().create(true).append(true).open(path) {
+                let _ = writeln!(f, "{}", json!({"program": case.text, "differs": format!("{differing:?}")}));
+            }
+        }
         ctx.inconclusive("a substitution step differs from the model (reported by C17); recursion verdicts not comparable");
         return;
     }
